@@ -32,6 +32,10 @@ import z3
 
 from .oracle import Undecided
 
+class Unsupported(Undecided):
+    """the executed code used a numpy construct the index-map model does not cover: undecided, never a pass"""
+
+
 TRUSTED = [
     "E3 numpy contracts (assumed, differentially tested against real numpy at concrete sizes by vk.idxmap.selftest on every run): arange, repeat, tile, reshape, ravel, transpose, concatenate, append, insert, split, cumsum, broadcast_to, zeros/ones/full(_like), astype, gather a[b] as composition of index maps in C order",
     "E3 numpy set contracts (assumed): np.unique(x) is strictly increasing and contains exactly the values occurring in x; a[mask] lists a.flat[k] for the k with mask.flat[k] in increasing k; a[idx] = v with a strictly increasing index array writes v[j] (or the scalar v) at idx[j] and nothing else; x.max()/x.min() is attained and bounds every entry",
@@ -123,11 +127,16 @@ def imod(a, b):
     return a % b
 
 
+def _force(x):
+    return x() if callable(x) and not isz(x) else x
+
+
 def ite(c, a, b):
+    """if-then-else; a / b may be thunks (only the taken branch is evaluated for a concrete condition)"""
     c = Z(c)
     if not isz(c):
-        return a if c else b
-    a, b = _real(Z(a)), _real(Z(b))
+        return _force(a) if c else _force(b)
+    a, b = _real(Z(_force(a))), _real(Z(_force(b)))
     if not isz(a) and not isz(b):
         if isinstance(a, bool) or isinstance(b, bool):
             a, b = z3.BoolVal(bool(a)), z3.BoolVal(bool(b))
@@ -502,7 +511,7 @@ class IArr:
             s._f = newf
         else:
             if s._frombase is None:
-                raise NotImplementedError("E3: write through a non-invertible view")
+                raise Unsupported("E3: write through a non-invertible view")
             inv = s._frombase
             s._base._setf(lambda *b: newf(*inv(*b)))
 
@@ -595,7 +604,7 @@ class IArr:
             return IArr(s._shape, lambda *i: _as_bool(g(*i)), "bool")
         if kind == "int":
             if s.kind == "real":
-                raise NotImplementedError("E3: real -> int cast")
+                raise Unsupported("E3: real -> int cast")
             return IArr(s._shape, lambda *i: _as_int(g(*i)), "int")
         return IArr(s._shape, lambda *i: (z3.ToReal(_as_int(g(*i))) if isz(_as_int(g(*i))) else float(_as_int(g(*i)))), "real")
 
@@ -754,7 +763,7 @@ class IArr:
     def __array_ufunc__(s, ufunc, method, *inputs, **kw):
         name = ufunc.__name__
         if kw.get("out") is not None:
-            raise NotImplementedError("E3: ufunc out=")
+            raise Unsupported("E3: ufunc out=")
         if method == "__call__":
             if name in _UFUNC1 and len(inputs) == 1:
                 g = inputs[0].snapshot()
@@ -769,12 +778,12 @@ class IArr:
             axis = kw.get("axis", 0)
             isor = name.endswith("or")
             return a.astype(bool)._reduce_axis(axis, Or if isor else And, not isor)
-        raise NotImplementedError(f"E3: no stand-in for ufunc {name}.{method}")
+        raise Unsupported(f"E3: no stand-in for ufunc {name}.{method}")
 
     def __array_function__(s, func, types, args, kwargs):
         impl = _IMPL.get(func.__name__)
         if impl is None:
-            raise NotImplementedError(f"E3: no stand-in for numpy.{func.__name__}")
+            raise Unsupported(f"E3: no stand-in for numpy.{func.__name__}")
         CTX.used.add("np." + func.__name__)
         return impl(*args, **kwargs)
 
@@ -923,7 +932,7 @@ class SetArr(IArr):
         return s
 
     def _setf(s, newf):
-        raise NotImplementedError("E3: write into a set-like array")
+        raise Unsupported("E3: write into a set-like array")
 
     def shifted(s, c):
         c = Z(c)
@@ -1019,7 +1028,7 @@ def mask_select(a, mask):
 
 def unique(x, **kw):
     if kw:
-        raise NotImplementedError("E3: np.unique options")
+        raise Unsupported("E3: np.unique options")
     CTX.used.add("np.unique")
     x = _lift(x)
     return newset("uniq", lambda v: occurs(x, v))
@@ -1029,23 +1038,23 @@ def scatter(a, idx, val):
     """a[idx] = val for an index array idx that is a sorted set (no duplicates)"""
     CTX.used.add("a[idx]=v")
     if not isinstance(idx, SetArr):
-        raise NotImplementedError("E3: index-array assignment with an index array that is not a sorted set")
+        raise Unsupported("E3: index-array assignment with an index array that is not a sorted set")
     if a.ndim != 1:
-        raise NotImplementedError("E3: index-array assignment on nd arrays")
+        raise Unsupported("E3: index-array assignment on nd arrays")
     old = a.snapshot()
     v = _lift(val)
     if v is None:
-        raise NotImplementedError(f"E3: assigned value {type(val)}")
+        raise Unsupported(f"E3: assigned value {type(val)}")
     if v.ndim == 0 or all(isinstance(d, int) and d == 1 for d in v._shape):
         c = v.f(*([0] * v.ndim))
-        newf = lambda k: ite(idx.mem(k), c, old(k))  # noqa: E731
+        newf = lambda k: ite(idx.mem(k), c, lambda: old(k))  # noqa: E731
     else:
         if v.ndim != 1:
             raise ValueError("E3: shape mismatch in index-array assignment")
         if not same_size(v._shape[0], idx._shape[0]):
             raise ValueError(f"shape mismatch: value array of shape {v._shape} could not be broadcast to indexing result of shape {idx._shape}")
         g = v.snapshot()
-        newf = lambda k: ite(idx.mem(k), g(idx.rank(k)), old(k))  # noqa: E731
+        newf = lambda k: ite(idx.mem(k), lambda: g(idx.rank(k)), lambda: old(k))  # noqa: E731
     if _KRANK[v.kind] > _KRANK[a.kind]:
         raise TypeError("E3: assignment would change the dtype")
     a._setf(newf)
@@ -1078,7 +1087,7 @@ def _getitem(a, key):
     for ax, k in enumerate(key):
         d = a._shape[ax]
         if isinstance(k, (bool, _np.bool_)):
-            raise NotImplementedError("E3: scalar boolean index")
+            raise Unsupported("E3: scalar boolean index")
         if isinstance(k, (int, _np.integer)):
             k = int(k)
             if isinstance(d, int):
@@ -1092,7 +1101,7 @@ def _getitem(a, key):
             maps.append(("fix", Z(k)))
         elif isinstance(k, slice):
             if k.step not in (None, 1):
-                raise NotImplementedError("E3: slice step")
+                raise Unsupported("E3: slice step")
             lo = 0 if k.start is None else norm(k.start)
             hi = d if k.stop is None else norm(k.stop)
             if isinstance(lo, int) and lo < 0:
@@ -1114,7 +1123,7 @@ def _getitem(a, key):
             if arr.dtype.kind not in "iu" and arr.size:
                 raise IndexError("arrays used as indices must be of integer (or boolean) type")
             if arr.ndim != 1:
-                raise NotImplementedError("E3: nd concrete index array")
+                raise Unsupported("E3: nd concrete index array")
             tab = [int(v) for v in arr]
             if isinstance(d, int):
                 for v in tab:
@@ -1124,7 +1133,7 @@ def _getitem(a, key):
             maps.append(("map", len(tab), (lambda tab: lambda i: select(tab, i) if tab else 0)(tab)))
             nadv += 1
     if nadv > 1:
-        raise NotImplementedError("E3: more than one index array")
+        raise Unsupported("E3: more than one index array")
     shape = tuple(m[1] for m in maps if m[0] == "map")
 
     def tob(*idx):
@@ -1143,7 +1152,7 @@ def _getitem(a, key):
 
 def _setitem(a, key, val):
     if isinstance(key, IArr) and key.kind == "bool":
-        raise NotImplementedError("E3: boolean-mask assignment with a symbolic mask")
+        raise Unsupported("E3: boolean-mask assignment with a symbolic mask")
     if isinstance(key, IArr):
         return scatter(a, key, val)
     if not isinstance(key, tuple):
@@ -1151,7 +1160,7 @@ def _setitem(a, key, val):
     key = key + (slice(None),) * (a.ndim - len(key))
     v = _lift(val)
     if v is None or v.ndim != 0:
-        raise NotImplementedError("E3: only scalar assignment through basic / column indices")
+        raise Unsupported("E3: only scalar assignment through basic / column indices")
     c = v.f()
     conds = []
     for ax, k in enumerate(key):
@@ -1180,7 +1189,7 @@ def _setitem(a, key, val):
 
     def newf(*idx):
         hit = And(*[Or(*[eq(idx[ax], t) for t in tab]) for ax, tab in enumerate(conds) if tab is not None])
-        return ite(hit, c, old(*idx))
+        return ite(hit, c, lambda: old(*idx))
 
     a._setf(newf)
 
@@ -1189,7 +1198,7 @@ def _setitem(a, key, val):
 # numpy function stand-ins
 def _arange(*args, **kw):
     if len(args) != 1:
-        raise NotImplementedError("E3: arange(start, stop)")
+        raise Unsupported("E3: arange(start, stop)")
     n = norm(args[0])
     return IArr((n,), lambda k: k, "int")
 
@@ -1197,10 +1206,10 @@ def _arange(*args, **kw):
 def _repeat(a, repeats, axis=None):
     a = _lift(a)
     if axis is not None:
-        raise NotImplementedError("E3: repeat(axis=)")
+        raise Unsupported("E3: repeat(axis=)")
     r = norm(repeats)
     if not isinstance(r, int):
-        raise NotImplementedError("E3: symbolic repeat count")
+        raise Unsupported("E3: symbolic repeat count")
     fl = a.flatten_copy() if a.ndim != 1 else a.copy()
     g = fl.snapshot()
     return IArr((norm(fl.size * r),), lambda k: g(idiv(k, r)), a.kind)
@@ -1235,7 +1244,7 @@ def _tile(a, reps):
 def _concatenate(arrs, axis=0, **kw):
     arrs = [_lift(x) for x in arrs]
     if axis != 0 or any(x.ndim != 1 for x in arrs):
-        raise NotImplementedError("E3: concatenate of nd arrays")
+        raise Unsupported("E3: concatenate of nd arrays")
     if not arrs:
         raise ValueError("need at least one array to concatenate")
     gs = [x.e if isinstance(x, SetArr) else x.snapshot() for x in arrs]
@@ -1245,10 +1254,12 @@ def _concatenate(arrs, axis=0, **kw):
     kind = max((x.kind for x in arrs), key=lambda k: _KRANK[k])
 
     def f(k):
-        r = gs[-1](k - zdim(starts[-2]))
-        for i in range(len(arrs) - 2, -1, -1):
-            r = ite(k < zdim(starts[i + 1]), gs[i](k - zdim(starts[i])), r)
-        return r
+        def part(i):
+            if i == len(arrs) - 1:
+                return gs[i](k - zdim(starts[i]))
+            return ite(k < zdim(starts[i + 1]), lambda: gs[i](k - zdim(starts[i])), lambda: part(i + 1))
+
+        return part(0)
 
     out = IArr((starts[-1],), f, kind)
     out._parts = [x if isinstance(x, SetArr) else IArr(x._shape, g, x.kind) for x, g in zip(arrs, gs)]
@@ -1263,7 +1274,7 @@ def _append(a, b, axis=None):
 def _split(a, idx, axis=0):
     a = _lift(a)
     if a.ndim != 1:
-        raise NotImplementedError("E3: split of nd arrays")
+        raise Unsupported("E3: split of nd arrays")
     cuts = [0] + [norm(Z_size(x)) for x in list(idx)] + [a._shape[0]]
     g = a.snapshot()
     return [IArr((norm(hi - lo),), (lambda lo: lambda k: g(k + zdim(lo)))(lo), a.kind) for lo, hi in zip(cuts[:-1], cuts[1:])]
@@ -1272,7 +1283,7 @@ def _split(a, idx, axis=0):
 def Z_size(x):
     s_ = SZ.of(x)
     if s_ is None:
-        raise NotImplementedError(f"E3: size expected, got {x!r}")
+        raise Unsupported(f"E3: size expected, got {x!r}")
     return norm(s_)
 
 
@@ -1314,7 +1325,7 @@ def _ones(shape, dtype=float, **k):
 def _array(x, dtype=None, **k):
     a = _lift(x)
     if a is None:
-        raise NotImplementedError("E3: np.array of this object")
+        raise Unsupported("E3: np.array of this object")
     if dtype is not None:
         return a.astype(dtype)
     return a.copy() if a is x else a
@@ -1341,7 +1352,7 @@ def _isclose(a, b, **k):
 
 
 def _where(*args):
-    raise NotImplementedError("E3: np.where on symbolic arrays")
+    raise Unsupported("E3: np.where on symbolic arrays")
 
 
 def _transpose(a, axes=None):
@@ -1438,22 +1449,21 @@ def sym_len(x):
 
 
 class bound:
-    """rebind module globals of felupe modules for the duration of a call; restored afterwards"""
+    """rebind module globals of felupe modules for the duration of a call; restored afterwards.
+    names: {"all": {...}} for every module, {"<module short name>": {...}} for one module"""
 
-    def __init__(s, *modules, **names):
-        s.modules, s.names = modules, names
+    def __init__(s, *modules, np=True, **names):
+        s.modules, s.names, s.np = modules, names, np
         s.saved = []
 
     def __enter__(s):
         for m in s.modules:
             if isinstance(m, str):
                 m = sys.modules[m]
-            repl = {"np": NP}
+            repl = {"np": NP} if s.np else {}
             repl.update(s.names.get("all", {}))
             repl.update(s.names.get(m.__name__.rsplit(".", 1)[-1], {}))
             for k, v in repl.items():
-                if k != "np" and k != "len" and k not in m.__dict__:
-                    continue
                 s.saved.append((m, k, m.__dict__.get(k, _MISSING)))
                 setattr(m, k, v)
                 CTX.used.add(f"{m.__name__}.{k}")
@@ -1498,6 +1508,14 @@ class COO:
 
     def tocsr(s):
         return s
+
+    def dense(s):
+        """native runs only: the real scipy matrix of these triplets (checks the assumed COO contract)"""
+        from scipy.sparse import csr_matrix
+
+        if s.empty:
+            return csr_matrix(s.shape).toarray()
+        return csr_matrix((_np.asarray(s.data), (_np.asarray(s.rows), _np.asarray(s.cols))), shape=s.shape).toarray()
 
 
 class Blocks:
@@ -1555,10 +1573,14 @@ class Sym:
         s.vk = vk
         CTX.reset()
         s.inputs = {}
+        s.pending_canaries = {}
 
     # -- inputs
-    def size(s, name, lo=1):
-        return SZ.sym(name, lo)
+    def size(s, name, lo=1, hi=None):
+        x = SZ.sym(name, lo)
+        if hi is not None:
+            CTX.basic.append(z3.Int(name) <= hi)
+        return x
 
     def ints(s, name, shape, lo=0, hi=None):
         """uninterpreted integer array with entries in [lo, hi)"""
@@ -1589,6 +1611,10 @@ class Sym:
         u = zdim(universe)
         return newset(name, lambda v: And(v >= 0, v < u, p(v)), 0, universe)
 
+    def scope(s):
+        """start a fresh sub-configuration: forget the assumptions / inputs of the previous one"""
+        CTX.basic, CTX.axioms = [], []
+
     def assume(s, fact):
         fact = Z(fact)
         if isz(fact):
@@ -1598,6 +1624,8 @@ class Sym:
 
     def run(s, *modules, **names):
         return bound(*modules, **names)
+
+    coo, bmat, vstack, len = COO, staticmethod(bmat), staticmethod(vstack), staticmethod(sym_len)
 
     # -- spec side
     def at(s, a, *idx):
@@ -1613,6 +1641,10 @@ class Sym:
 
     def length(s, a):
         return a.shape[0]
+
+    def rank(s, a, v):
+        """position of value v in the sorted set a (meaningful where v occurs)"""
+        return a.rank(Z(v))
 
     def val(s, x):
         return Z(x)
@@ -1660,11 +1692,12 @@ class Sym:
         s.vk.ensures_true(clause, bool(ok), detail, backend="structural")
 
     def canary(s, clause, ranges, body, given=None):
-        """deliberately false claim: must be refuted by the solver"""
+        """deliberately false claim: must be refuted -- by a z3 counter-model, or (when the quantified set
+        axioms leave z3 without a model: `unknown`) by a native counterexample of the paired run"""
         n = len(s.vk.obl)
-        st = s.forall("canary/" + clause, ranges, body, given)
+        st = s.forall("canary/" + clause, ranges, body, given, timeout_ms=5000)
         del s.vk.obl[n:]
-        s.vk.canary_bool(clause, st == "refuted")
+        s.pending_canaries[clause] = st
 
 
 class Nat:
@@ -1677,11 +1710,12 @@ class Nat:
         s.rng = random.Random(seed)
         s.nrng = _np.random.RandomState(seed)
         s.failed = []
+        s.canary_failed = set()
         s.count = 0
         s.inputs = {}
 
-    def size(s, name, lo=1):
-        v = s.rng.randint(lo, lo + 2)
+    def size(s, name, lo=1, hi=None):
+        v = s.rng.randint(lo, lo + 2 if hi is None else hi)
         s.inputs[name] = v
         return v
 
@@ -1711,19 +1745,17 @@ class Nat:
         s.inputs[name] = a.tolist()
         return a
 
+    def scope(s):
+        s.inputs.clear()
+
     def assume(s, fact):
         if not fact:
             raise _Reject()
 
-    class _NoBind:
-        def __enter__(s):
-            return s
-
-        def __exit__(s, *a):
-            return False
-
     def run(s, *modules, **names):
-        return Nat._NoBind()
+        return bound(*modules, np=False, **names)
+
+    coo, bmat, vstack, len = COO, staticmethod(bmat), staticmethod(vstack), staticmethod(len)
 
     def at(s, a, *idx):
         v = _np.asarray(a)[tuple(int(i) for i in idx)]
@@ -1734,6 +1766,9 @@ class Nat:
 
     def length(s, a):
         return len(a)
+
+    def rank(s, a, v):
+        return int(_np.searchsorted(_np.asarray(a), v))
 
     def val(s, x):
         return x.item() if hasattr(x, "item") else x
@@ -1770,17 +1805,21 @@ class Nat:
             except IndexError:
                 ok = False
             if not ok:
-                s.failed.append((clause, dict(zip([r[0] for r in ranges], idx))))
+                s.failed.append((clause, {"index": dict(zip([r[0] for r in ranges], idx)), "inputs": _short(s.inputs)}))
                 return "refuted"
         return "discharged"
 
     def check(s, clause, ok, detail=""):
         s.count += 1
         if not ok:
-            s.failed.append((clause, {"detail": detail}))
+            s.failed.append((clause, {"detail": detail, "inputs": _short(s.inputs)}))
 
-    def canary(s, *a, **k):
-        pass
+    def canary(s, clause, ranges, body, given=None):
+        n = len(s.failed)
+        if s.forall("canary/" + clause, ranges, body, given) == "refuted":
+            s.canary_failed.add(clause)
+        del s.failed[n:]
+        s.count -= 1
 
 
 class _Reject(Exception):
@@ -1792,13 +1831,23 @@ def paired(vk, body, cfg, native_runs=3):
     (validates the index-map model against real numpy, provides native failing inputs)"""
     if not vk.sym:
         return
+    import traceback
+
+    _real_numpy_everywhere()
     E = Sym(vk)
-    body(E, cfg)
+    aborted = None
+    try:
+        body(E, cfg)
+    except Exception as e:
+        # Undecided: a branch / size the assumptions do not decide, or an unsupported construct;
+        # other exceptions: the executed code raised under the stand-in (numpy-like IndexError, ValueError ...)
+        aborted = {"name": f"{vk.prefix}/run", "status": "undecided", "backend": "E3", "seconds": 0, "detail": f"symbolic run stopped: {type(e).__name__}: {e} | " + traceback.format_exc(limit=6)[-700:], "family": f"{vk.prefix}/run"}
+        vk.obl.append(aborted)
     vk.note("E3 rebinding inventory: " + ", ".join(sorted(CTX.used)))
     status = {o["name"]: o for o in vk.obl}
-    done = 0
-    seed = 0
+    done = seed = checks = 0
     fails = {}
+    native_canary = set()
     while done < native_runs and seed < 40 * native_runs:
         seed += 1
         N = Nat(vk, seed=seed * 101 + 7)
@@ -1806,25 +1855,49 @@ def paired(vk, body, cfg, native_runs=3):
             body(N, cfg)
         except _Reject:
             continue
-        except Exception as e:  # the native run must not fail on valid inputs
-            fails.setdefault("run", (f"{type(e).__name__}: {e}", N.inputs))
-            done += 1
-            continue
+        except Exception as e:  # the real code must not raise on valid inputs
+            fails.setdefault("run", (f"real code raised {type(e).__name__}: {e} | " + traceback.format_exc(limit=4)[-400:], N.inputs))
         done += 1
+        checks += N.count
+        native_canary |= N.canary_failed
         for clause, where in N.failed:
-            fails.setdefault(clause, (where, N.inputs))
+            fails.setdefault(clause, (where, where.get("inputs", N.inputs)))
+    any_refuted = any(o["status"] == "refuted" for o in vk.obl)
     for clause, (where, inputs) in fails.items():
         name = f"{vk.prefix}/{clause}"
         o = status.get(name)
-        rep = {"confirmed": True, "kind": "native-small-scope", "point": {"inputs": _short(inputs), "index": where}, "expected": "specification holds", "actual": "real code (native numpy) violates it at this input", "obligation": name, "property": vk.c.prop, "contract": vk.c.name}
+        if o is None and aborted is not None:
+            o = aborted  # obligations after the stop were never generated: the native failure refutes the run
+        if clause.startswith("native:") and (any_refuted or o is aborted):
+            continue  # end-to-end native check fails together with a refuted symbolic obligation: consistent
+        rep = {"confirmed": True, "kind": "native-small-scope", "point": {"inputs": _short(inputs), "index": where}, "expected": "specification holds", "actual": "real code (native numpy) violates it at this input", "obligation": o["name"] if o else name, "property": vk.c.prop, "contract": vk.c.name}
         if o is not None and o["status"] in ("refuted", "undecided"):
-            o["status"] = "refuted"
-            o["replay"] = rep
-            o["detail"] = (o["detail"] + " | native failing input: " + str(rep["point"]))[:1500]
+            if o.get("replay") is None:
+                o["status"] = "refuted"
+                o["replay"] = rep
+                o["detail"] = (o["detail"] + f" | native failing input ({clause}): " + str(rep["point"]))[:1800]
         else:
             vk.obl.append({"name": name + "/native", "status": "error", "backend": "native", "seconds": 0, "detail": f"paired native run disagrees with the symbolic verdict ({o['status'] if o else 'no obligation'}): {where} inputs {_short(inputs)}", "family": name})
-    vk.note(f"E3 paired native runs: {done} random small instances, all quantified indices enumerated")
+    for clause, st in E.pending_canaries.items():
+        vk.canary_bool(clause, st == "refuted" or (st == "undecided" and clause in native_canary))
+        if st != "refuted":
+            vk.note("canary refuted by a native counterexample (z3: unknown under the quantified set axioms): " + clause.split(",")[0])
+    vk.note(f"E3 paired native runs: {done} random small instances per configuration, {checks} native checks with all quantified indices enumerated")
     return E
+
+
+def _real_numpy_everywhere():
+    """E3 runs start from the real numpy in every felupe module (the E1 proxy of vk.symnp is removed in this
+    forked worker: e.g. its `isnan` override would break Boundary's `f != np.isnan` identity test)"""
+    try:
+        from . import symnp
+
+        symnp.SYM = False
+        for name, mod in list(sys.modules.items()):
+            if (name == "felupe" or name.startswith("felupe.")) and getattr(mod, "np", None) is symnp.P:
+                mod.np = _np
+    except Exception:
+        pass
 
 
 def _short(d):
@@ -1930,11 +2003,12 @@ def selftest(seed=0):
         S = _np.unique(rs.randint(0, 8, size=4))
         CTX.reset()
         sset = unique(_lift(S))
+        CTX.basic.append(zdim(sset.shape[0]) == len(S))
         tgt = _lift(_np.arange(10, 18)).copy()
         scatter(tgt, sset, _lift(_np.arange(len(S)) + 100) if trial else 99)
         want = _np.arange(10, 18)
         want[S] = (_np.arange(len(S)) + 100) if trial else 99
-        got = _model_eval([tgt.f(k) for k in range(8)], extra=[zdim(sset.shape[0]) == len(S)])
+        got = _model_eval([tgt.f(k) for k in range(8)])
         n += 1
         if got != want.tolist():
             bad.append(f"scatter: axioms give {got}, numpy {want.tolist()}")
